@@ -21,7 +21,7 @@ PROP = {
     "rule": "cases = (config, stream, schedule): config over txn/ticker mode x resumable x pipelined x batch count {1,2,3,4,8,100} x byte limit {1,40,200,2^30} x TargetDb and/or TargetDbMap (also both: TargetDb wins) x db/command/prefix filters x startDbId/pre-existing checkpoints (incl. records of other equal-length run ids) x start offsets up to 2^53; stream of 0-30 (quick) / 0-60 (thorough) source commands (binary args, SELECT to mapped/unmapped/filtered DBs incl. two-digit ones, MULTI groups of 0-4 and occasionally 9-25 commands with SELECTs inside, PING, REPLCONF GETACK, sentinel hello, blacklisted commands and ANY command of the fixed no-route list, keys with reserved/filtered prefixes incl. the bisync namespace); schedule = writes of 1-6 commands at chosen virtual instants with idle gaps of 0-12 s (also before the first item, also right after a MULTI) and five ticker-period triples, run on the REAL RedisOutput.sendAof (parser goroutine, sendCmdsBatch loop, real conn.RedisConn batchers) inside testing/synctest against the target double; output = the target's request log with the DB each request executes in, plus the real StartPoint after every (thorough) / sampled (quick) crash prefix of that log; compared line by line with the Lean model (parseStep, run, applyLog, startPoint). On top, judged by independent Go monitors on the real log only: (a) from 2 (quick) / 4 (thorough) sampled crash prefixes per case (every prefix for corpus cases) the REAL restart -- a fresh RedisOutput on the crashed target, real StartPoint, real sendAof over the stream suffix (resumed-run-differs / write-skipped / write-repeated); (b) for the in-memory position (resume off) the in-process re-run after a source reconnect on the SAME RedisOutput, the first run having received a prefix of the stream (rerun-wrong-db / rerun-repeats / rerun-differs); (c) a quarter of the cases again against a target that takes 1 ms .. 3.1 s of virtual time per request, so that ticks, the end of the stream and items become ready while a batch is in flight (not sent to the model: the order the loop picks is not a function of the instants). 1500 (quick) / 15000 (thorough) generated cases + corpus. distinct_nontrivial = distinct non-empty request logs.",
     "trusted": ['target double (harness/overlay/pkg/vfdoubles/target.go): MULTI/EXEC atomicity, per-DB hashes, INFO keyspace; Redis command semantics of data commands are not interpreted', 'Go testing/synctest virtual time; select over simultaneously ready channels is never exercised (ticker periods and write instants are pairwise distinct)', 'RESP decoding (C12) and the filter functions (C10) are parameters of the model here: theorems hold for every filter'],
     "assumptions": ['healthy target (no error replies); receive-side error timing of the pipelined sender is runtime behaviour outside the model', 'source stream well formed: increasing offsets; transactions not nested (Redis never propagates nested MULTI)', 'strings.EqualFold on the sentinel hello channel is modelled as ASCII case folding'],
-    "partial": ['source_txn_is_one_block composes the per-segment theorems for a transaction at ANY position of ANY stream (arbitrary prefix, body and interleaved ticks); it is stated for a transaction that forwards at least one command (an empty or wholly filtered transaction sends at most a checkpoint-only block) ; source_txn_is_one_block_src replaces the hypothesis on the sender state before the MULTI by `the brackets of the schedule are not nested` (Redis never propagates a nested MULTI), which for the parser's output follows from the source stream (Props.C01 noNested_of_items / parseAll_noNested)'],
+    "partial": ['source_txn_is_one_block composes the per-segment theorems for a transaction at ANY position of ANY stream (arbitrary prefix, body and interleaved ticks); it is stated for a transaction that forwards at least one command (an empty or wholly filtered transaction sends at most a checkpoint-only block) ; source_txn_is_one_block_src replaces the hypothesis on the sender state before the MULTI by `the brackets of the schedule are not nested` (Redis never propagates a nested MULTI), which for the output of the parser follows from the source stream (Props.C01 noNested_of_items / parseAll_noNested)'],
 }
 
 MANIFEST = {
